@@ -123,11 +123,12 @@ func vfBASample(sim *vfSim, w *vfWork, b *vfBAState, final bool) {
 			continue
 		}
 		// a write that has been called but has not returned yet may or may not be counted
-		var open int64
+		var open, openKnown int64
 		sim.apiMu.Lock()
 		for _, ev := range sim.api {
 			if ev.Op == "write" && ev.Side == side && ev.SID == run.cfg.SID && !ev.Returned {
 				open += int64(ev.N)
+				openKnown += int64(ev.N)
 				if ev.N == 0 {
 					open += int64(a.MaxMessageSize())
 				}
@@ -270,6 +271,13 @@ func vfRunBA(t *testing.T, spec *vfSpec, res *vfRes) {
 					if ws == nil || installed[run] {
 						continue
 					}
+					if run.cfg.SID == 60 {
+						// writes on this stream fail at their deadline: a roll-back lowers the amount without an
+						// acknowledgement, which is not a crossing the callback is promised for
+						installed[run] = true
+
+						continue
+					}
 					installed[run] = true
 					cnt := &atomic.Int64{}
 					var th uint64
@@ -321,9 +329,71 @@ func vfRunBA(t *testing.T, spec *vfSpec, res *vfRes) {
 			}
 		}()
 	}
+	// failed blocking writes: in blocking-write mode a dedicated stream (a run like the others, so every oracle
+	// applies to it) gets a bounded number of writes with a 0-3 ms deadline while the gate is mostly closed; each
+	// failure rolls the buffered amount back while acknowledgements release bytes
+	var nFailed atomic.Int64
+	prevEst := o.onEstablished
+	o.onEstablished = func(s *vfSim, w *vfWork) {
+		prevEst(s, w)
+		if !spec.A.BlockWrite {
+			return
+		}
+		st, err := s.A().OpenStream(60, PayloadTypeWebRTCBinary)
+		rs, err2 := s.B().OpenStream(60, PayloadTypeWebRTCBinary)
+		if err != nil || err2 != nil {
+			return
+		}
+		run := &vfStreamRun{
+			cfg: vfStreamCfg{SID: 60, Dir: 0, SizeMode: "mixed", Reader: "fast"}, key: vfMsgKey(spec.Seed, 0, 60, 0), wside: 0,
+			wDone: make(chan struct{}), rDone: make(chan struct{}), resume: make(chan struct{}), wStream: st, rStream: rs,
+		}
+		w.runsMu.Lock()
+		w.runs = append(w.runs, run)
+		w.runsMu.Unlock()
+		go func() {
+			defer close(run.rDone)
+			buf := make([]byte, 65536)
+			for {
+				n, ppi, err := rs.ReadSCTP(buf)
+				w.recordRead(run, buf[:n], uint32(ppi), n, err)
+				if err != nil {
+					return
+				}
+			}
+		}()
+		go func() {
+			defer close(run.wDone)
+			fr := vfNewRand(spec.Seed ^ 0xfa11)
+			for i := 0; i < 150; i++ {
+				select {
+				case <-s.net.pumpDone:
+					return
+				default:
+				}
+				msg := vfMakeMsg(run.key, i, 200+fr.Intn(3000))
+				_ = st.SetWriteDeadline(time.Now().Add(time.Duration(fr.Pick(0, 1, 3)) * time.Millisecond))
+				ev := s.apiCall(0, "write", 60)
+				ev.N = len(msg)
+				n, err := st.WriteSCTP(msg, PayloadTypeWebRTCBinary)
+				s.apiRet(ev, n, err)
+				run.mu.Lock()
+				run.writes = append(run.writes, vfWriteRec{Idx: i, Size: len(msg), PPI: 53, Hash: vfMsgHash(53, msg), Accepted: err == nil, Err: err})
+				run.mu.Unlock()
+				if err != nil {
+					nFailed.Add(1)
+				} else {
+					run.nWrit.Add(1)
+				}
+				time.Sleep(time.Duration(fr.Intn(5)) * time.Millisecond)
+			}
+			_ = st.SetWriteDeadline(time.Time{})
+		}()
+	}
 	o.beforeTeardown = func(s *vfSim, w *vfWork) {
 		close(stop)
 		<-samplerDone
+		res.count("c15_failed_blocking_writes", nFailed.Load())
 		vfBASample(s, w, b, true)
 	}
 	out := vfRunTransfer(t, spec, res, o)
